@@ -1,3 +1,7 @@
 import aligned_common
 A = aligned_common.pairs()
 PAIRS = [v for k, v in A.items()]
+# interior (aligned) pointers are mapped back to their page through the slice back-offsets that the span layer writes
+import seg_common, page_common
+S = seg_common.pairs(); PG = page_common.pairs()
+PAIRS += seg_common.span_allocate_pairs() + [S["span_page_of"], S["span_free"], PG["set_has_aligned"]]
